@@ -219,7 +219,7 @@ def run(ctx):
                                "marker lengths no longer line up for characters the two functions disagree on" % (fn, len(used[major]), major), loc)
                 else:
                     rw.inst("%s: %s" % (fid.rsplit("::", 1)[-1], fn), loc)
-    rw.require(5, "width measurements")
+    rw.require(2, "width measurements")      # 5 today; a padding helper shared by the writers lowers the count
     # which piece is measured: padding = the text before the marked part (`former`), marker length = the marked part (`middle`)
     rmc = ctx.rule("R14-MARKCOL", "in the snippet writers the padding before a marker is the width of the line's `former` part and a marker "
                                   "run is as wide as its `middle` part")
@@ -235,6 +235,27 @@ def run(ctx):
                 fields = [x["name"] for x in walk(ws[0]) if x["k"] == "field" and x["name"] in ("former", "middle", "latter")]
                 want = "former" if lit.strip() == "" else "middle"
                 key = "%s: %r.repeat(width(..))" % (fid.rsplit("::", 1)[-1], lit)
+                params = {p_["var"]: i for i, p_ in enumerate(b.get("params", [])) if p_.get("k") == "bind"}
+                plocals = [x["var"] for x in walk(ws[0]) if x["k"] == "local" and x["var"] in params]
+                if not fields and len(plocals) == 1:
+                    # a shared helper (`fn padding_for(shown: &str)`): what is measured is decided at its call sites
+                    idx = params[plocals[0]]
+                    sites_ = []
+                    for fid2, b2 in g.bodies.items():
+                        for m2 in walk(b2["value"]):
+                            if m2["k"] in ("call", "mcall") and m2.get("callee") and strip_generics(m2["callee"]["path"]) == strip_generics(fid):
+                                a2 = ([m2["recv"]] if m2["k"] == "mcall" else []) + m2["args"]
+                                if idx < len(a2):
+                                    sites_.append((fid2, m2, [x["name"] for x in walk(a2[idx]) if x["k"] == "field" and x["name"] in ("former", "middle", "latter")]))
+                    if not sites_:
+                        rmc.violate(key, "helper measuring its parameter is never called", c.loc(n.get("sp")))
+                    for fid2, m2, fl2 in sites_:
+                        k2 = "%s via %s: %r.repeat(width(..))" % (fid2.rsplit("::", 1)[-1], fid.rsplit("::", 1)[-1], lit)
+                        if fl2 == [want]:
+                            rmc.inst(k2, c.loc(m2.get("sp")), "ok", {"measures": want})
+                        else:
+                            rmc.violate(k2, "measures %s, expected the `%s` part of the line" % (fl2 or "something else", want), c.loc(m2.get("sp")))
+                    continue
                 if fields == [want]:
                     rmc.inst(key, c.loc(n.get("sp")), "ok", {"measures": want})
                 else:
